@@ -695,3 +695,67 @@ func AdversarialPoints(n int, variant int) []byte {
 	}
 	return out
 }
+
+// CFFDictOperators returns the file offsets of the one-byte operators of the Top DICT and of
+// the Private DICT of a CFF font: each selects what its operands mean (charset, encoding,
+// charstrings, private dict, subroutines, default widths …).
+func CFFDictOperators(img []byte) (offs []int) {
+	kind, tabs := ParseDirectory(img)
+	if kind != KindSfnt {
+		return nil
+	}
+	for _, t := range tabs {
+		if t.Tag != "CFF " || t.Offset+4 > len(img) || t.Offset+t.Length > len(img) {
+			continue
+		}
+		b := img[:t.Offset+t.Length]
+		name, ok := parseCFFIndex(b, t.Offset+int(b[t.Offset+2]))
+		if !ok {
+			return nil
+		}
+		top, ok := parseCFFIndex(b, name.end)
+		if !ok || top.count < 1 {
+			return nil
+		}
+		walk := func(lo, hi int) {
+			for i := lo; i < hi; {
+				c := b[i]
+				switch {
+				case c >= 32 && c <= 246:
+					i++
+				case c >= 247 && c <= 254:
+					i += 2
+				case c == 28:
+					i += 3
+				case c == 29:
+					i += 5
+				case c == 30:
+					i++
+					for i < hi {
+						x := b[i]
+						i++
+						if x&0x0F == 0x0F || x>>4 == 0x0F {
+							break
+						}
+					}
+				case c == 12:
+					i += 2
+				case c <= 21:
+					offs = append(offs, i)
+					i++
+				default:
+					return
+				}
+			}
+		}
+		walk(top.start[0], top.start[1])
+		if priv, ok := cffDictInts(b[top.start[0]:top.start[1]], 18); ok && len(priv) >= 2 {
+			lo := t.Offset + priv[len(priv)-1]
+			hi := lo + priv[len(priv)-2]
+			if lo >= 0 && hi <= len(b) && lo <= hi {
+				walk(lo, hi)
+			}
+		}
+	}
+	return offs
+}
